@@ -189,7 +189,14 @@ func (e *Exponent) UnmarshalBinary(data []byte) error {
 		return errors.New("can't unmarshal Exponent with no group")
 	}
 	group := e.group
+	if len(data) < 4 {
+		return errors.New("data is too short to contain an Exponent")
+	}
 	size := binary.BigEndian.Uint32(data)
+	// every coefficient takes more than one byte of data, so a larger size cannot be honest
+	if int64(size) > int64(len(data)) {
+		return errors.New("number of coefficients exceeds the length of the data")
+	}
 	e.coefficients = make([]curve.Point, int(size))
 	for i := 0; i < len(e.coefficients); i++ {
 		e.coefficients[i] = group.NewPoint()
